@@ -19,7 +19,10 @@ import (
 
 var entries = []string{"Handle", "Handle-presrc", "HandleX", "ControlFrameHandler-inline", "ControlFrameHandler-intermediate", "HandleControlMessage", "HandleSideControlMessage", "ReadData",
 	// the control frame between the fragments of a TEXT message whose validity is being checked
-	"ControlFrameHandler-intermediate-text", "ReadData-intermediate-text"}
+	"ControlFrameHandler-intermediate-text", "ReadData-intermediate-text",
+	// the application read the frame itself and unmasked it in place (ws.UnmaskFrameInPlace clears Header.Masked):
+	// the header handed to the handler says "not masked" although the endpoint is a server
+	"Handle-unmasked-header"}
 
 func peerOf(side ref.Side) ref.Side {
 	if side == ref.SideServer {
@@ -62,6 +65,14 @@ func runControl(c *mon.C, entry string, side ref.Side, op byte, payload []byte, 
 		// payload already pulled and unmasked by the application
 		ch := wsutil.ControlHandler{Src: xport.NewChunker(payload, plan), Dst: dst, State: st, DisableSrcCiphering: true}
 		return nil, ch.Handle(wh)
+	case "Handle-unmasked-header":
+		uh := wh
+		uh.Masked, uh.Mask = false, [4]byte{}
+		ch := wsutil.ControlHandler{Src: xport.NewChunker(payload, plan), Dst: dst, State: st}
+		if c.Rng.Intn(2) == 0 {
+			ch.DisableSrcCiphering = true
+		}
+		return nil, ch.Handle(uh)
 	case "ControlFrameHandler-inline":
 		rd := &wsutil.Reader{Source: xport.NewChunker(frame, plan), State: st}
 		hdr, e := rd.NextFrame()
@@ -571,7 +582,7 @@ func main() {
 	mon.Main(&mon.Spec{
 		Property: "C08",
 		Level:    "exploration",
-		Rule: "cases: ping and pong x every payload length 0..125 x both sides x 10 entry points (ControlFrameHandler as OnIntermediate and the ReadData helpers also between the halves of a character split across two fragments of a TEXT message under UTF-8 checking; ControlHandler.Handle with masked source / pre-unmasked source, HandlePing/Pong/Close, ControlFrameHandler in-line and as OnIntermediate, HandleControlMessage and its Client/Server shortcuts, ReadData in-line) under varied source chunk plans; close: all 65536 codes x valid/invalid reasons x both sides (through Handle in quick, spread over all entry points in thorough) plus empty, 1-byte, longest-reason and 29 boundary codes through every entry point; " +
+		Rule: "cases: ping and pong x every payload length 0..125 x both sides x 11 entry points (ControlHandler.Handle given the header of a frame the application already unmasked in place; ControlFrameHandler as OnIntermediate and the ReadData helpers also between the halves of a character split across two fragments of a TEXT message under UTF-8 checking; ControlHandler.Handle with masked source / pre-unmasked source, HandlePing/Pong/Close, ControlFrameHandler in-line and as OnIntermediate, HandleControlMessage and its Client/Server shortcuts, ReadData in-line) under varied source chunk plans; close: all 65536 codes x valid/invalid reasons x both sides (through Handle in quick, spread over all entry points in thorough) plus empty, 1-byte, longest-reason and 29 boundary codes through every entry point; " +
 			"ControlWriter: both constructors x 8 buffers x both sides x 3 opcodes x ALL write-size sequences of <= 4 writes over {0,1,60,62,63,64,124,125,126,200} x flush positions. Replies are parsed by the reference parser and checked against the peer's header rules, ws.CheckHeader, the close-payload classes and the expected content; distinct = (kind, entry, side, length/plan/code range).",
 		Assumptions: []string{"for codes the statement leaves open (1012-1014, >= 5000) either echo or 1002 is accepted but reply and returned error must agree", "a ControlWriter is reusable after Flush (limit counted per control frame)"},
 		Subs:        []mon.Sub{subPingPong(), subCloseAllCodes(), subCloseEntries(), subControlWriter()},
